@@ -143,8 +143,10 @@ func init() {
 			wg.Wait()
 			fp1 := lisp.SealedASTFingerprint(exprs)
 			lit := make([]string, n)
+			nested := make([]string, n)
 			for r := 0; r < n; r++ {
 				lit[r] = envs[r].LoadString("op", "(lit)").String()
+				nested[r] = envs[r].LoadString("op", "(if (handler-bind ((condition (lambda (c &rest r) ()))) (nested)) (nested) '('(3 1 2)))").String()
 			}
 			// solo: fresh parse, fresh runtime, the script alone
 			solo := make([][]string, n)
@@ -166,7 +168,7 @@ func init() {
 					solo[r] = append(solo[r], v.String())
 				}
 			}
-			out.emit(J{"id": in.ID, "fp_before": fmt.Sprint(fp0), "fp_after": fmt.Sprint(fp1), "results": results, "solo": solo, "lit_after": lit, "load": loadres})
+			out.emit(J{"id": in.ID, "fp_before": fmt.Sprint(fp0), "fp_after": fmt.Sprint(fp1), "results": results, "solo": solo, "lit_after": lit, "nested_after": nested, "load": loadres})
 		})
 	}
 }
